@@ -1096,14 +1096,20 @@ def remove_redundant_else(source: str) -> str:
         ranges = [core.get_charnos(child, source) for child in node.orelse]
         start = min((s for (s, _) in ranges))
         end = max((e for (_, e) in ranges))
-        last_else = list(re.finditer("(?<![^\\n]) *else: *\\n?", source[:start]))[-1]
+        # The else of this if is found between the end of its body and the start of its orelse
+        (_, body_end) = core.get_charnos(node.body[-1], source)
+        else_matches = list(re.finditer("(?<![^\\n]) *else *: *\\n?", source[body_end:start]))
+        if not else_matches:
+            continue
+        last_else = else_matches[-1]
+        else_start = body_end + last_else.start()
         indent = len(re.findall("^ *", last_else.group())[0])
         modified_orelse = " " * indent + re.sub("(?<![^\\n])    ", "", source[start:end]).lstrip()
 
-        pre_else = source[: last_else.start()]
+        pre_else = source[:else_start]
         start_offset = len(pre_else) - len(pre_else.rstrip())
 
-        yield core.Range(last_else.start() - start_offset, end), "\n\n" + modified_orelse
+        yield core.Range(else_start - start_offset, end), "\n\n" + modified_orelse
 
 
 @processing.fix
